@@ -19,9 +19,22 @@ func ConvertValueList(values []interface{}) ([]interface{}, error) {
 		if IsNil(val) {
 			return nil, fmt.Errorf("null value cannot be inserted")
 		}
-		jsonValues = append(jsonValues, ConvertToJSONSupportedValue(val))
+		jsonValue := ConvertToJSONSupportedValue(val)
+		if err := CheckJSONValue(jsonValue); err != nil {
+			return nil, err
+		}
+		jsonValues = append(jsonValues, jsonValue)
 	}
 	return jsonValues, nil
+}
+
+// CheckJSONValue returns an error for a value that has no JSON form (NaN, an infinity, a channel, a function, ...,
+// also nested in a container): such a value can neither be sent to the other replicas nor stored.
+func CheckJSONValue(value interface{}) error {
+	if _, err := json.Marshal(value); err != nil {
+		return fmt.Errorf("value has no JSON form: %v", err)
+	}
+	return nil
 }
 
 // float32ToFloat64 converts a float32 to the float64 with the same shortest decimal representation,
